@@ -551,7 +551,7 @@ def main(argv):
                                 fail("error#names_offending_line", dict(source=src, line=lineno, blank_lines_after=len(after), lines_before=before, options=kw), dict(message=str(e)[:120], expected_prefix=want))
                         except BaseException as e:  # noqa
                             fail("error#garbage_rejected", dict(source=src), "raised %s" % type(e).__name__)
-                for garbage in ("@@ not fortran @@", "= = ="):
+                for garbage in ("@@ not fortran @@", "= = =", "this isn't fortran", "print *, \"unterminated"):
                     for deco in decorations:
                         src = "\n".join(lines[:1] + deco + lines[1:li] + ["  " + garbage] + lines[li + 1:]) + "\n"
                         cases += 1
